@@ -151,9 +151,9 @@ def annealing_task(theory, n_iter_max, P_values):
                             rec.prove("inv" + name, inv * tr[-1] == 1, replay=rp, key="C19:inv", what="temperature_inv is not 1/temperature")
                         else:
                             one = z3.FPVal(1.0, T.F64)
-                            rec.prove("final-exact" + name, z3.fpEQ(tr[-1], one), replay=rp, key="C19:final-float-not-exactly-1", timeout_ms=90000,
+                            rec.prove("final-exact" + name, z3.fpEQ(tr[-1], one), replay=rp, key="C19:final-float-not-exactly-1", timeout_ms=240000,
                                       what="temperature after the annealing iterations is not exactly 1.0 in float64")
-                            rec.prove("never-below-1" + name, z3.And(*[z3.And(z3.fpGEQ(x, one), z3.Not(z3.fpIsNaN(x))) for x in tr]), replay=rp, key="C19:float-envelope", timeout_ms=90000,
+                            rec.prove("never-below-1" + name, z3.And(*[z3.And(z3.fpGEQ(x, one), z3.Not(z3.fpIsNaN(x))) for x in tr]), replay=rp, key="C19:float-envelope", timeout_ms=240000,
                                       what="temperature below 1 / NaN in float64")
                     if len(rec.violations) >= 3:
                         return rec.result()
